@@ -155,6 +155,9 @@ func (fe *FnExec) havocArg(st *State, a Val, depth int) {
 	case RefV:
 		if x.T != "0" {
 			fe.havocGhost(st, x.T)
+			if t, ok := fe.ifaceType[x.T]; ok {
+				fe.havocHeapObj(st, typeName(t), x.T, t)
+			}
 		}
 	case FuncV:
 		for _, b := range x.Bind {
@@ -190,6 +193,17 @@ func (fe *FnExec) havocGhost(st *State, obj Term) {
 }
 
 func (fe *FnExec) doBuiltin(fr *frame, st *State, in ssa.Instruction, b *ssa.Builtin, cc *ssa.CallCommon, args []Val, rt types.Type) Val {
+	if fr.con != nil {
+		if cs := fr.con.Calls[fr.ords[in]]; cs != nil {
+			for _, a := range cs.Asserts {
+				ctx := fe.ctxFor(fr, st)
+				for i, v := range args {
+					ctx.binds[fmt.Sprintf("arg%d", i)] = v
+				}
+				fe.oblige(fr, fmt.Sprintf("call[%s].assert:%s", fr.ords[in], a.Label), a.Props, st.pc, ctx.evalBool(a.X), in.Pos(), a.Src)
+			}
+		}
+	}
 	switch b.Name() {
 	case "len":
 		return IntV{fe.lenOf(args[0])}
